@@ -95,6 +95,12 @@ def container_scenario(ch, max_records=12, top="any", serial=True, logical=False
         sc.metadata = {ch.pick(["k", "user.key", "é"]): ch.pick(["", "v", "välue"])}
         if ch.chance(30):
             sc.metadata["second"] = "2"
+        if ch.chance(12):
+            # metadata taken over from ANOTHER file (e.g. metadata=reader.metadata): it carries that
+            # file's reserved avro.* entries; the writer must still describe THIS file
+            sc.metadata["avro.schema"] = json.dumps({"type": "record", "name": "Stale", "fields": [{"name": "zz", "type": "string"}]})
+            if ch.chance(50):
+                sc.metadata["avro.codec"] = ch.pick(CODECS)
         if ch.chance(8):
             # header larger than 64 KiB / many keys
             if ch.draw(2):
